@@ -161,8 +161,13 @@ func (sc *Scheduler) Schedule(ctx context.Context, g *ExecutionGraph, done chan 
 					sc.lastError = err
 					node.setErr(err)
 				}
+				// handedOver is set once the node has been released for a
+				// retry: from then on its files belong to the next worker.
+				handedOver := false
 				defer func() {
-					_ = sc.teardownNode(node)
+					if !handedOver {
+						_ = sc.teardownNode(node)
+					}
 				}()
 
 			ExecRepeat:
@@ -197,6 +202,12 @@ func (sc *Scheduler) Schedule(ctx context.Context, g *ExecutionGraph, done chan 
 							time.Sleep(node.data.Step.RetryPolicy.Interval)
 							verifhook.Point("dagsched.retry.waited", node)
 							node.setRetriedAt(time.Now())
+							// Flush and close this attempt's files before the
+							// node can be launched again.
+							if err := sc.teardownNode(node); err != nil {
+								sc.setLastError(err)
+							}
+							handedOver = true
 							node.setStatus(NodeStatusNone)
 						default:
 							// finish the node
@@ -227,9 +238,11 @@ func (sc *Scheduler) Schedule(ctx context.Context, g *ExecutionGraph, done chan 
 				if node.State().Status == NodeStatusRunning {
 					node.setStatus(NodeStatusSuccess)
 				}
-				if err := sc.teardownNode(node); err != nil {
-					sc.setLastError(err)
-					node.setStatus(NodeStatusError)
+				if !handedOver {
+					if err := sc.teardownNode(node); err != nil {
+						sc.setLastError(err)
+						node.setStatus(NodeStatusError)
+					}
 				}
 				if done != nil {
 					done <- node
